@@ -12,6 +12,9 @@ from .typing import Protocol, runtime_checkable
 Source = str
 Nodes = list["Node"]
 
+# RFC 5234 2.3: quoted strings are case-insensitive over US-ASCII letters only.
+ASCII_CASEFOLD = {c: c + 0x20 for c in range(0x41, 0x5B)}
+
 
 class Match:
     def __init__(self, nodes: Nodes, start: int):
@@ -316,7 +319,9 @@ class Literal:
         self.value = value
         self.case_sensitive = case_sensitive
         self.pattern = (
-            value if isinstance(value, tuple) or case_sensitive else value.casefold()
+            value
+            if isinstance(value, tuple) or case_sensitive
+            else value.translate(ASCII_CASEFOLD)
         )
 
         self.lparse = (
@@ -341,7 +346,7 @@ class Literal:
         # is handled correctly.
         if start < len(source):
             src = source[start : start + len(self.value)]
-            match = src if self.case_sensitive else src.casefold()
+            match = src if self.case_sensitive else src.translate(ASCII_CASEFOLD)
             if match == self.pattern:
                 yield Match(
                     [typing.cast(Node, LiteralNode(src, start, len(src)))],
